@@ -40,7 +40,7 @@ theorem step_line {d : Nat} {st : List (Option Str)} {out : List (Nat × Str)} {
     rcases h1 with h1 | ⟨h1, h3⟩
     · simp [h1]
     · simp [h1, isUnindentor_false h3]
-  simp [step, hd, h2]
+  simp [step, dedentStep, hd, h2]
 
 /-- the `indent_detail` entry a header pushes is a keyword exactly when the header is in `_re_compound` -/
 theorem opens_isSome {h : Str} {top : Option Str} (ho : opens h = some top) : top.isSome = isCompound h := by
@@ -61,7 +61,7 @@ theorem step_header {d : Nat} {st : List (Option Str)} {out : List (Nat × Str)}
   simp only [HeaderOk, Bool.and_eq_true, Bool.not_eq_true'] at hh
   have hd : (!isComment (some h) && (!hasText (some h) || isUnindentor st h) && decide (d > 0)) = false := by
     simp [hh.1.1, isUnindentor_false hc]
-  simp [step, hd, ho]
+  simp [step, dedentStep, hd, ho]
 
 /-- a continuation clause after a suite opened by a `_re_compound` keyword: unindents, is written, indents -/
 theorem step_cont {d : Nat} {st : List (Option Str)} {out : List (Nat × Str)} {e : Bool} {h : Str}
@@ -69,12 +69,12 @@ theorem step_cont {d : Nat} {st : List (Option Str)} {out : List (Nat × Str)} {
     step ⟨d + 1, some k :: st, out, false, e⟩ (some h) = ⟨d + 1, top :: st, out ++ [(d, h)], false, true⟩ := by
   simp only [HeaderOk, Bool.and_eq_true, Bool.not_eq_true'] at hh
   have hu : isUnindentor (some k :: st) h = true := by simpa [isUnindentor, isCont] using hc
-  simp [step, hh.1.2, hu, ho]
+  simp [step, dedentStep, hh.1.2, hu, ho]
 
 /-- the dedent marker `None` -/
 theorem step_none {d : Nat} {st : List (Option Str)} {out : List (Nat × Str)} {e : Bool} {t : Option Str} :
     step ⟨d + 1, t :: st, out, false, e⟩ none = ⟨d, st, out, false, e⟩ := by
-  simp [step, isComment, hasText]
+  simp [step, dedentStep, isComment, hasText]
 
 /-- what follows a suite: the next clause, or `None` and the rest -/
 def emitAfter (r : Prog) : List Ev := if startsCont r then emit r else .wl none :: emit r
@@ -203,6 +203,15 @@ theorem run_err (σ : PS) (evs : List Ev) (h : σ.err = true) : run σ evs = σ 
   | nil => rfl
   | cons ev evs ih => rw [run_cons, stepEv_err σ ev h, ih]
 
+theorem dedentStep_empty (σ : PS) (line : Option Str) : (dedentStep σ line).empty = σ.empty := by
+  unfold dedentStep
+  simp only
+  generalize (!isComment line && (!hasText line || (match line with | some s => isUnindentor σ.detail s | none => false)) &&
+    decide (σ.indent > 0)) = b
+  cases b
+  · rfl
+  · cases hdt : σ.detail <;> simp [hdt]
+
 theorem stepEv_empty (σ : PS) (ev : Ev) (h : (stepEv σ ev).err = false) :
     (stepEv σ ev).empty = flagAfterEv σ.empty ev := by
   have h0 : σ.err = false := by
@@ -212,14 +221,16 @@ theorem stepEv_empty (σ : PS) (ev : Ev) (h : (stepEv σ ev).err = false) :
   cases ev with
   | blk t => simp [stepEv, h0, flagAfterEv]
   | wl l =>
-    cases l with
-    | none =>
-      simp only [stepEv, step, h0, Bool.false_eq_true, if_false, flagAfterEv] at h ⊢
-      split <;> (try split) <;> simp_all
-    | some s =>
-      cases ho : opens s <;>
-      · simp only [stepEv, step, h0, ho, Bool.false_eq_true, if_false, flagAfterEv] at h ⊢
-        split at h <;> (try split at h) <;> simp_all
+    have hd := dedentStep_empty σ l
+    simp only [stepEv, step, h0, Bool.false_eq_true, if_false] at h ⊢
+    generalize dedentStep σ l = σ1 at h hd ⊢
+    cases he : σ1.err with
+    | true => simp [he] at h
+    | false =>
+      simp only [he, Bool.false_eq_true, if_false]
+      cases l with
+      | none => simpa [flagAfterEv] using hd
+      | some s => cases ho : opens s <;> simp [flagAfterEv, ho]
 
 theorem run_empty : ∀ (evs : List Ev) (σ : PS), (run σ evs).err = false →
     (run σ evs).empty = flagAfter σ.empty evs
